@@ -15,7 +15,10 @@ pinned configuration regenerated from heapq.go (`current_cfg_ok`).
   or was reported exactly once (multiset conservation), per step and per history.
 * `C08_F2_witness`  – the recorded defect F2: on corpus/C08/F2.ops the pinned model evicts key 9 where
   the reference LRU evicts key 2.  Hence the *victim choice* clause of C08 fails for the pinned heap.
-* `C08_refines_if_evict_min` – see the end of the file.
+* `C08_refines_if_evict_min` – the conditional full theorem: on every history on which each `Evict`
+  executed by `Put` finds a minimal timestamp at the root of the heap (`runMin`; what a correct heap
+  provides, what F2 breaks), model and reference LRU cache produce the same outputs and the same
+  callback sequence.
 -/
 namespace MdsVerif.Props.C08
 open MdsVerif.Model MdsVerif.Model.Cache MdsVerif.Proofs.Cache MdsVerif.Spec
@@ -172,11 +175,6 @@ def f2ops : List Op :=
   [.put 7 7, .put 10 14, .put 3 16, .put 13 22, .put 6 25, .put 11 31, .put 2 40, .put 9 45, .put 12 54,
    .get 6, .put 10 55, .remove 13, .get 12, .put 13 61, .put 1 69, .put 0 72, .put 8 82]
 
-/-- the reference run -/
-def execRef (sizeOf : Nat → Int) (r : LruRef.R) : List Op → LruRef.R
-  | [] => r
-  | op :: ops => execRef sizeOf (LruRef.step sizeOf r op).1 ops
-
 set_option maxRecDepth 100000 in
 /-- **F2 seen through the cache**: on the recorded history the last `Put` of the pinned model evicts key 9
 (value 45), while the reference LRU cache evicts key 2 (value 40), the least recently used entry: the
@@ -184,8 +182,59 @@ set_option maxRecDepth 100000 in
 theorem C08_F2_witness :
     (exec pinned (fun _ => 1) (empty 8) f2ops).evicted.head? = some (9, 45) ∧
     (execRef (fun _ => 1) { limit := 8 } f2ops).evicted.head? = some (2, 40) ∧
-    ents (exec pinned (fun _ => 1) (empty 8) f2ops) ≠ [] := by
+    outs pinned (fun _ => 1) (empty 8) f2ops = outsRef (fun _ => 1) { limit := 8 } f2ops ∧
+    -- … and this is exactly a run on which an `Evict` did not find the minimal timestamp at the root
+    runMin pinned (fun _ => 1) (empty 8) f2ops = false := by
   decide
+
+/-! ## 3. conditional refinement of the reference LRU cache -/
+
+/-- **C08, one step, conditional.**  From a state satisfying the invariant and related to a reference
+state (`Abs`: the recency list is the heap's entries in timestamp order), if every `Evict` executed by
+this step finds a minimal timestamp at the root (`stepMin`; vacuous unless the step is a `Put` that must
+make room), then model and reference give the same output, stay related, and report the same new
+callbacks in the same order (for `Clear`: the same callbacks up to order — the order in which `Clear`
+reports is not part of the property, and the correspondence stream compares it as a sorted list too). -/
+theorem C08_step_refines_if_evict_min (cfg : Heapq.Cfg) (ok : CfgOK cfg) (sizeOf : Nat → Int)
+    (hs : ∀ v, 0 ≤ sizeOf v) (c : Cache) (r : LruRef.R) (inv : Inv sizeOf c) (abs : Abs c r) (op : Op)
+    (hmin : stepMin cfg sizeOf c op = true) :
+    (step cfg sizeOf c op).2 = (LruRef.step sizeOf r op).2 ∧
+    Abs (step cfg sizeOf c op).1 (LruRef.step sizeOf r op).1 ∧
+    ∃ g g', (step cfg sizeOf c op).1.evicted = g ++ c.evicted ∧
+      (LruRef.step sizeOf r op).1.evicted = g' ++ r.evicted ∧
+      (if op == .clear then g.Perm g' else g = g') :=
+  step_refines ok hs inv abs op hmin
+
+/-- **C08, conditional full theorem.**  For every history from the empty cache on which every `Evict`
+executed by a `Put` finds a minimal timestamp at the root of the heap (`runMin`), `Model.Cache.step` and
+`Spec.LruRef.step` produce the same outputs; the final states are related; the callback logs agree as
+multisets, and as sequences when the history contains no `Clear`.  (Per step, including the exact
+callback sequence of every non-`Clear` step of histories *with* `Clear`: `C08_step_refines_if_evict_min`.)
+So: a `Put` that fits evicts exactly the least-recently-used entries needed to make room, in that order
+(`LruRef.makeRoom`), `Put` and successful `Get` count as uses, `Has` does not. -/
+theorem C08_refines_if_evict_min (cfg : Heapq.Cfg) (ok : CfgOK cfg) (sizeOf : Nat → Int)
+    (hs : ∀ v, 0 ≤ sizeOf v) (limit : Int) (hl : 0 < limit) (ops : List Op)
+    (hmin : runMin cfg sizeOf (empty limit) ops = true) :
+    outs cfg sizeOf (empty limit) ops = outsRef sizeOf { limit := limit } ops ∧
+    Abs (exec cfg sizeOf (empty limit) ops) (execRef sizeOf { limit := limit } ops) ∧
+    (exec cfg sizeOf (empty limit) ops).evicted.Perm (execRef sizeOf { limit := limit } ops).evicted ∧
+    (Op.clear ∉ ops →
+      (exec cfg sizeOf (empty limit) ops).evicted = (execRef sizeOf { limit := limit } ops).evicted) := by
+  have abs0 : Abs (empty limit) { limit := limit } := ⟨[], .refl _, List.Pairwise.nil, rfl, rfl⟩
+  obtain ⟨h1, h2, h3, h4⟩ :=
+    run_refines ok hs ops (inv_empty sizeOf limit hl) abs0 hmin (.refl _)
+  exact ⟨h1, h2, h3, fun hn => h4 hn rfl⟩
+
+/- The unconditional statement — NOT provable for the pinned heap (`C08_F2_witness` refutes it), and the
+obligation that a repaired heap configuration has to discharge (it amounts to `runMin … = true` for every
+history, i.e. to: `pop`/`add` keep the minimum of `lastAccess` at the root):
+
+theorem C08_full (cfg : Heapq.Cfg) (h : IsRepaired cfg) (sizeOf : Nat → Int) (hs : ∀ v, 0 ≤ sizeOf v)
+    (limit : Int) (hl : 0 < limit) (ops : List Op) :
+    outs cfg sizeOf (empty limit) ops = outsRef sizeOf { limit := limit } ops ∧
+    (Op.clear ∉ ops →
+      (exec cfg sizeOf (empty limit) ops).evicted = (execRef sizeOf { limit := limit } ops).evicted)
+-/
 
 /-! ## non-vacuity -/
 
@@ -204,6 +253,12 @@ example : (exec pinned demoSize (empty 8) demoOps).evicted = [(4, 14), (2, 11), 
     outs pinned demoSize (empty 8) demoOps =
       [.bool true, .bool true, .bool true, .opt (some 3), .bool true, .bool true, .bool true, .bool true,
        .bool false, .bool false, .bool true, .int 3, .int 8, .bool true, .opt none] := by
+  decide
+
+/-- the refinement hypothesis holds on the demo history (evictions by `Put` included), so
+`C08_refines_if_evict_min` applies to it; and it fails on the F2 history (`C08_F2_witness`) -/
+example : runMin pinned demoSize (empty 8) demoOps = true ∧
+    (execRef demoSize { limit := 8 } demoOps).evicted = [(4, 14), (2, 11), (1, 3), (3, 2), (2, 1)] := by
   decide
 
 set_option maxRecDepth 100000 in
